@@ -82,6 +82,9 @@ def plan(tier, seed):
                 for perm in (list(range(n))[::-1], list(range(1, n)) + [0], [n - 1] + list(range(n - 1))):
                     ff.append({"kind": "forcefile", "calc": calc, "n": n, "blocks": 1, "mag": 0.05, "order": perm, "short": False})
     groups += [ff[k:k + 40] for k in range(0, len(ff), 40)]
+    groups.append([{"kind": "pairing-lammps", "cell": cn, "S": S_, "order": od} for cn in ("NaCl-grouped", "NaClNaO-tri", "hex-2")
+                   for S_ in ([[2, 0, 0], [0, 1, 0], [0, 0, 1]], [[1, 1, 0], [-1, 1, 0], [0, 0, 1]], [[2, 1, 0], [-1, 1, 0], [0, 0, 1]], [[1, 0, 1], [0, 1, 0], [-1, 0, 1]])
+                   for od in ("sorted", "reversed", "shuffled")])
     meta = {"alphabet": {"calculators": [str(c) for c in CALCS], "structure_interfaces": STRUCT_IF, "force_file_interfaces": sorted(FF.WRITERS),
                          "force_file_axes": "atoms {1,2,4,7,12} x relaxation history {1,3 blocks} x magnitude x (line order: all 24 permutations of 4 ids and 6 larger ones where lines carry the atom id)", "cells": CELLS, "structure_kinds": 3, "pairing_scenarios": 5},
             "bound": "complete product", "exhaustive": True,
@@ -222,6 +225,9 @@ def make_cell(name):
     if name == "twelve":
         g = np.random.default_rng(4)
         return PhonopyAtoms(symbols=["Na"] * 6 + ["Cl"] * 6, cell=tri, scaled_positions=g.uniform(0, 1, (12, 3)).round(6))
+    if name == "hex-2":
+        a, c_ = 2.95, 4.68
+        return PhonopyAtoms(symbols=["Ti", "Ti"], cell=[[a, 0, 0], [-a / 2, a * np.sqrt(3) / 2, 0], [0, 0, c_]], scaled_positions=[[1 / 3, 2 / 3, .25], [2 / 3, 1 / 3, .75]])
     if name == "NaClNaO-tri":
         return PhonopyAtoms(symbols=["Na", "Cl", "Na", "O"], cell=tri, scaled_positions=[[.03, .01, .02], [.43, .57, .61], [.52, .11, .47], [.81, .29, .33]])
     raise ValueError(name)
@@ -509,6 +515,78 @@ def run_pairing(case, seed):
     return dict(ok=True, nontrivial=True, transitions=1, outcome="ok:pairing:" + sc)
 
 
+def run_pairing_lammps(case, seed):
+    """create_FORCE_SETS with LAMMPS dumps: LAMMPS works in its own frame (a along x, b in the xy plane), so the dump carries
+    positions and forces rotated by the rigid rotation that takes the SUPERCELL lattice there; FORCE_SETS must hold the forces
+    of each displacement in phonopy's frame, atom by atom, whatever the order of the dump lines."""
+    from phonopy import Phonopy
+    from phonopy.cui.create_force_sets import create_FORCE_SETS
+    from phonopy.file_IO import parse_FORCE_SETS
+    from phonopy.interface.phonopy_yaml import PhonopyYaml
+    from vtk.ref import springs as SP
+
+    cell = make_cell(case["cell"])
+    S = case["S"]
+    ph = phx.quiet(Phonopy, cell, supercell_matrix=S, calculator="lammps")
+    phx.quiet(ph.generate_displacements, distance=0.03)
+    scs = ph.supercells_with_displacements
+    sc = ph.supercell
+    fc = SP.folded_fc(np.asarray(sc.cell), sc.positions, [x.rstrip("0123456789") for x in sc.symbols], SP.SpringModel(rc=4.0, seed=seed))
+    F = SP.forces_for_dataset(fc, ph.dataset)
+    L = np.asarray(sc.cell, float)
+    if np.linalg.det(L) < 0:
+        return dict(ok=True, skipped="left-handed supercell lattice (LAMMPS needs a right-handed one)")
+    ex = L[0] / np.linalg.norm(L[0])
+    ey = L[1] - (L[1] @ ex) * ex
+    ey /= np.linalg.norm(ey)
+    ez = np.cross(ex, ey)
+    R = np.array([ex, ey, ez]).T  # v_lammps = v @ R
+    n = len(sc)
+    g = np.random.default_rng(5 + seed)
+    order = {"sorted": list(range(n)), "reversed": list(range(n))[::-1], "shuffled": g.permutation(n).tolist()}[case["order"]]
+    sp = sorted(set(sc.symbols), key=list(sc.symbols).index)
+    with tempfile.TemporaryDirectory(prefix="c17l_") as td:
+        cwd = os.getcwd()
+        os.chdir(td)
+        try:
+            ph.save("phonopy_disp.yaml")
+            files = []
+            Ll = L @ R
+            for k, c in enumerate(scs):
+                pos = np.asarray(c.positions) @ R
+                fl = F[k] @ R
+                fn = "forces.%d" % k
+                with open(fn, "w") as f:
+                    f.write("ITEM: TIMESTEP\n0\nITEM: NUMBER OF ATOMS\n%d\n" % n)
+                    f.write("ITEM: BOX BOUNDS xy xz yz pp pp pp\n%.12f %.12f %.12f\n%.12f %.12f %.12f\n%.12f %.12f %.12f\n" % (
+                        0.0, Ll[0, 0], Ll[1, 0], 0.0, Ll[1, 1], Ll[2, 0], 0.0, Ll[2, 2], Ll[2, 1]))
+                    f.write("ITEM: ATOMS id type x y z fx fy fz\n")
+                    for i in order:
+                        f.write("%d %d %.10f %.10f %.10f %.12f %.12f %.12f\n" % (i + 1, sp.index(c.symbols[i]) + 1, *pos[i], *fl[i]))
+                files.append(fn)
+            buf = io.StringIO()
+            try:
+                with contextlib.redirect_stdout(buf):
+                    py = PhonopyYaml()
+                    py.read("phonopy_disp.yaml")
+                    create_FORCE_SETS("lammps", files, phpy_yaml=py, symmetry_tolerance=1e-5, disp_filename="phonopy_disp.yaml", log_level=0)
+            except (SystemExit, Exception) as e:
+                return dict(ok=False, sig="C17/pairing-lammps/refused", nontrivial=True, msg="%s S=%s: consistent LAMMPS dumps were refused (%s)" % (case["cell"], S, type(e).__name__))
+            if not os.path.exists("FORCE_SETS"):
+                return dict(ok=False, sig="C17/pairing-lammps/refused", nontrivial=True, msg="%s S=%s: no FORCE_SETS written" % (case["cell"], S))
+            ds = parse_FORCE_SETS(filename="FORCE_SETS")
+            for k, d in enumerate(ds["first_atoms"]):
+                dev = np.abs(np.asarray(d["forces"]) - (F[k] - F[k].mean(axis=0))).max()
+                if dev > 2e-9:
+                    rot_only = np.abs(np.linalg.norm(np.asarray(d["forces"]), axis=1) - np.linalg.norm(F[k] - F[k].mean(axis=0), axis=1)).max() < 1e-8
+                    return dict(ok=False, sig="C17/pairing-lammps/%s" % ("forces-in-wrong-frame" if rot_only else "forces-mispaired"), nontrivial=True, resid=float(dev),
+                                msg="%s S=%s dump order %s: FORCE_SETS forces of displacement %d differ from the forces in phonopy's frame by %.3g%s" % (
+                                    case["cell"], S, case["order"], k + 1, dev, " (same magnitudes atom by atom: rotated into another frame)" if rot_only else ""))
+        finally:
+            os.chdir(cwd)
+    return dict(ok=True, nontrivial=bool(np.abs(R - np.eye(3)).max() > 1e-9 or case["order"] != "sorted"), transitions=1, outcome="ok:pairing-lammps")
+
+
 def run_forcefile(case, seed):
     """A calculator output written by the harness in the calculator's own layout is parsed to the forces it carries, atom
     by atom; a truncated output is refused."""
@@ -576,6 +654,9 @@ def run_group(cases, seed):
         k = c["kind"]
         if k == "forcefile":
             out.append(run_forcefile(c, seed))
+            continue
+        if k == "pairing-lammps":
+            out.append(run_pairing_lammps(c, seed))
             continue
         if k == "units":
             out.append(run_units(c))
